@@ -38,7 +38,7 @@ Lemma Post_lists s x s' had now :
 Proof.
   intros Hg Hwf Hwf' (Hhad & D & HxD & HDclo & Hclosed & HR).
   destruct Hwf as (HsF & _ & _). destruct Hwf' as (HsF' & _ & HsS').
-  destruct Hg as (_ & _ & _ & Hm & _).
+  destruct Hg as (_ & _ & Hm & _).
   assert (HD : forall j, mem_str j D = mem_str j (clo_iter (S (length (st_facts s))) (st_facts s) [x])).
   { intros j. apply Bool.eq_true_iff_eq. rewrite !mem_str_In, (clo_iter_spec s HsF x j). split.
     - apply HDclo.
@@ -56,7 +56,7 @@ Proof.
 Qed.
 
 Lemma st_rem_lists s x now s' had :
-  goodk s now -> st_wf s -> is_var x = false -> st_rem s x now = (s', Ok had) ->
+  goodk s now -> st_wf s -> st_rem s x now = (s', Ok had) ->
   had = had_fact s x /\
   st_facts s' = minus_closure (st_facts s) x /\
   (forall j, alookup j (st_store s') = alookup j (minus_closure (st_facts s) x)) /\
@@ -64,7 +64,7 @@ Lemma st_rem_lists s x now s' had :
   (forall j, ~ Clo s x j -> alookup j (st_facts s') = alookup j (st_facts s) /\
                             alookup j (st_store s') = alookup j (st_store s)).
 Proof.
-  intros Hg Hwf Hx Hr. eapply Post_lists; [exact Hg|exact Hwf| |].
+  intros Hg Hwf Hr. eapply Post_lists; [exact Hg|exact Hwf| |].
   - pose proof (st_rem_wf s x now Hwf) as H. rewrite Hr in H. exact H.
   - unfold st_rem in Hr. eapply rem_fuel_exact2; eassumption.
 Qed.
@@ -93,25 +93,22 @@ Qed.
 Lemma mirror_list_lk s : st_store s = st_facts s -> mirror_lk s.
 Proof. intros H j. rewrite H. reflexivity. Qed.
 
-Lemma ids_ok_split s : ids_not_varlike s -> ids_not_sentinel s -> ids_ok s.
-Proof. intros H1 H2 j Hj. split; [apply H1; exact Hj|apply H2; exact Hj]. Qed.
-
 Lemma reachable_goodk k hooks ops now :
   let s := reachable k hooks None ops in
-  StateSpec.no_expired s now -> ids_ok s ->
+  StateSpec.no_expired s now ->
   goodk s now /\ st_wf s /\ st_pending s = [] /\ st_store s = st_facts s /\ st_hooks s = hooks.
 Proof.
-  intros s Hne Hok.
+  intros s Hne.
   destruct (reachable_fields k hooks None ops) as (Hk & Hhk & Hf). fold s in Hk, Hhk, Hf.
   pose proof (store_mirrors_memory_hooks k hooks ops) as Hm. fold s in Hm.
   split; [|split; [apply reachable_wf|split; [apply pending_empty_reachable|split; [exact Hm|exact Hhk]]]].
-  split; [exact Hf|]. split; [exact Hne|]. split; [exact Hok|]. split; [apply mirror_list_lk; exact Hm|].
+  split; [exact Hf|]. split; [exact Hne|]. split; [apply mirror_list_lk; exact Hm|].
   intros Hki. rewrite Hk in Hki. unfold s. rewrite Hki. unfold reachable. apply fold_sstep_P. apply P_empty.
 Qed.
 
 Lemma st_Rem_reachable_lists k hooks ops id now s' had :
   let s := reachable k hooks None ops in
-  StateSpec.no_expired s now -> ids_not_varlike s -> is_var id = false -> ids_not_sentinel s ->
+  StateSpec.no_expired s now ->
   st_Rem s id now = (s', Ok had) ->
   had = had_fact s id /\
   st_facts s' = minus_closure (st_facts s) id /\
@@ -120,12 +117,12 @@ Lemma st_Rem_reachable_lists k hooks ops id now s' had :
   (forall j, ~ Clo s id j -> alookup j (st_facts s') = alookup j (st_facts s) /\
                              alookup j (st_store s') = alookup j (st_store s)).
 Proof.
-  intros s Hne Hnv Hid Hns HR. pose proof (ids_ok_split s Hnv Hns) as Hok.
-  destruct (reachable_goodk k hooks ops now Hne Hok) as (Hg & Hwf & Hp & Hm & Hhk). fold s in Hg, Hwf, Hp, Hm, Hhk.
+  intros s Hne HR.
+  destruct (reachable_goodk k hooks ops now Hne) as (Hg & Hwf & Hp & Hm & Hhk). fold s in Hg, Hwf, Hp, Hm, Hhk.
   rewrite (st_Rem_unfold s id now Hne Hp) in HR.
   destruct (st_hooks s && negb (had_fact s id)); [discriminate|].
   destruct (st_rem s id now) as [s1 o] eqn:Er. cbn [fst snd] in HR. injection HR as <- ->.
-  destruct (st_rem_lists s id now s1 had Hg Hwf Hid Er) as (H1 & H2 & H3 & H4 & H5).
+  destruct (st_rem_lists s id now s1 had Hg Hwf Er) as (H1 & H2 & H3 & H4 & H5).
   cbn [st_facts st_store set_pending].
   split; [exact H1|]. split; [exact H2|]. split; [|split; assumption].
   rewrite Hm. apply assoc_ext.
@@ -139,15 +136,15 @@ Proof. intros s id j Hs. apply clo_iter_spec. exact Hs. Qed.
 
 Theorem cascade_closure_history_main : cascade_closure_history_statement.
 Proof.
-  intros k hooks ops id now s' had s Hne Hnv Hid Hns HR.
-  destruct (st_Rem_reachable_lists k hooks ops id now s' had Hne Hnv Hid Hns HR) as (H1 & H2 & H3 & H4 & _).
+  intros k hooks ops id now s' had s Hne HR.
+  destruct (st_Rem_reachable_lists k hooks ops id now s' had Hne HR) as (H1 & H2 & H3 & H4 & _).
   repeat split; auto; apply H4; assumption.
 Qed.
 
 Theorem nothing_else_deleted_history_main : nothing_else_deleted_history_statement.
 Proof.
-  intros k hooks ops id now s' had s Hne Hnv Hid Hns HR.
-  destruct (st_Rem_reachable_lists k hooks ops id now s' had Hne Hnv Hid Hns HR) as (_ & _ & _ & _ & H5).
+  intros k hooks ops id now s' had s Hne HR.
+  destruct (st_Rem_reachable_lists k hooks ops id now s' had Hne HR) as (_ & _ & _ & _ & H5).
   exact H5.
 Qed.
 
@@ -170,7 +167,7 @@ Definition facts_all (Qf : string -> json -> Prop) (F : list (string * json)) : 
 
 Definition HInv (hooks : bool) (s : state) : Prop :=
   st_fail s = None /\ st_hooks s = hooks /\ st_wf s /\ st_store s = st_facts s /\ st_pending s = [] /\
-  facts_all (fun id f => fact_expires f = 0 /\ id_ok id) (st_facts s) /\
+  facts_all (fun id f => fact_expires f = 0) (st_facts s) /\
   (st_kind s = Indexed -> P s).
 
 Lemma HInv_noexp hooks s now : HInv hooks s -> StateSpec.no_expired s now.
@@ -183,14 +180,7 @@ Lemma HInv_goodk hooks s now : HInv hooks s -> goodk s now.
 Proof.
   intros H. pose proof (HInv_noexp hooks s now H) as Hne.
   destruct H as (Hf & _ & _ & Hm & _ & Hall & HP).
-  split; [exact Hf|]. split; [exact Hne|]. split; [|split; [apply mirror_list_lk; exact Hm|exact HP]].
-  intros j Hj. destruct (alookup j (st_facts s)) as [f|] eqn:E; [|congruence]. apply (Hall j f E).
-Qed.
-
-Lemma id_okb_ok j : id_okb j = true -> id_ok j.
-Proof.
-  unfold id_okb, id_ok. intros H. apply andb_true_iff in H. destruct H as [H1 H2].
-  apply Bool.negb_true_iff in H1, H2. split; [exact H1|]. apply String.eqb_neq. exact H2.
+  split; [exact Hf|]. split; [exact Hne|]. split; [apply mirror_list_lk; exact Hm|exact HP].
 Qed.
 
 Lemma facts_all_ainsert Qf F id f : facts_all Qf F -> Qf id f -> facts_all Qf (ainsert id f F).
@@ -210,7 +200,7 @@ Qed.
 (** the generic part of the invariant *)
 Lemma HInv_step_generic hooks s o :
   HInv hooks s ->
-  facts_all (fun id f => fact_expires f = 0 /\ id_ok id) (st_facts (sstep s o)) ->
+  facts_all (fun id f => fact_expires f = 0) (st_facts (sstep s o)) ->
   HInv hooks (sstep s o).
 Proof.
   intros (Hf & Hh & Hwf & Hm & Hp & Hall & HP) Hall'.
@@ -268,8 +258,7 @@ Proof.
       destruct (st_hooks s && negb (had_fact s id)); [reflexivity|].
       destruct (st_rem_ok_nofail s id now Hf) as (had & Hhad).
       destruct (st_rem s id now) as [s1 o1] eqn:Er. cbn [fst snd] in *. subst o1. cbn [negb st_facts set_pending].
-      apply Bool.negb_true_iff in Hpl.
-      destruct (st_rem_lists s id now s1 had (HInv_goodk hooks s now HI) Hwf Hpl Er) as (_ & H2 & _).
+      destruct (st_rem_lists s id now s1 had (HInv_goodk hooks s now HI) Hwf Er) as (_ & H2 & _).
       exact H2.
     - cbn [sstep sstep_ok spec_step negb]. rewrite (DurableExpiry.st_get_noexp s id now Hne Hp). reflexivity.
     - cbn [sstep sstep_ok spec_step negb]. rewrite (DurableExpiry.st_search_noexp s p now Hne Hp). reflexivity.
@@ -281,8 +270,7 @@ Proof.
   rewrite Hfacts. destruct HI as (_ & _ & _ & _ & _ & Hall & _).
   destruct o as [[g x fr aux|id|id|p|ev|] now]; cbn [spec_step]; destruct (negb (sstep_ok s _)); try exact Hall.
   - cbn [op_plain] in Hpl. destruct (prepare_fact g x now fr aux) as [[id f]|e|w|]; try exact Hall.
-    apply andb_true_iff in Hpl. destruct Hpl as [H1 H2].
-    apply facts_all_ainsert; [exact Hall|]. split; [apply Z.eqb_eq; exact H2|apply id_okb_ok; exact H1].
+    apply facts_all_ainsert; [exact Hall|]. apply Z.eqb_eq. exact Hpl.
   - apply facts_all_minus. exact Hall.
   - intros j f Hl. discriminate.
 Qed.
